@@ -46,6 +46,22 @@ def run(run):
         if allo != list(range(pc.n)) or allp != list(range(pc.m)):
             run.fail('an object/property does not label exactly one concept', [allo, allp], [list(range(pc.n)), list(range(pc.m))],
                      [pc.line, 'lattice'], extra)
+        # the labelling of a lattice restored from a pickle / deep copy (once and twice) is the same labelling
+        if len(cs) <= 120 and run.evaluations % 3 == 0:
+            import pickle
+            import copy
+            with guard(run, 'labels after pickle / deepcopy', [pc.line, 'lattice']):
+                L2 = pickle.loads(pickle.dumps(L))
+                L3 = pickle.loads(pickle.dumps(L2))
+                L4 = copy.deepcopy(L)
+                for name, other in (('pickle round trip', L2), ('two pickle round trips', L3), ('copy.deepcopy', L4)):
+                    got = [(tuple(c.extent), tuple(c.objects), tuple(c.properties), tuple(tuple(a.extent) for a in c.atoms), str(c))
+                           for c in other]
+                    want = [(tuple(c.extent), tuple(c.objects), tuple(c.properties), tuple(tuple(a.extent) for a in c.atoms), str(c))
+                            for c in cs]
+                    if got != want:
+                        run.fail('labels / atoms / str of the concepts after %s' % name, got[:6], want[:6], [pc.line, 'lattice'], extra)
+            run.count('pickle / deepcopy label comparisons')
         run.count('contexts')
         if any(len(v[0]) > 1 or len(v[1]) > 1 for v in view):
             run.count('several labels on one concept')
